@@ -298,6 +298,11 @@ type run struct {
 	user    string
 	lastCB  *ssh.Permissions // permissions object returned by the most recent accepting callback
 	lastCBk string
+	// lastBy: the same per (callback kind, user, key): a signed public key
+	// request may be decided from the cached answer to an earlier query, with
+	// accepting callbacks of other methods (whose success was then refused,
+	// e.g. by a source-address option) in between
+	lastBy map[string]*ssh.Permissions
 	// client observations
 	responses []string // per request: success | failure | partial | pkok | closed
 	sent      int
@@ -326,6 +331,10 @@ func (r *run) result(o *Outcome, kind, user, key string, stage int, next func() 
 			p.CriticalOptions = map[string]string{"source-address": o.SA[3:]}
 		}
 		r.lastCB, r.lastCBk = p, kind
+		if r.lastBy == nil {
+			r.lastBy = map[string]*ssh.Permissions{}
+		}
+		r.lastBy[fmt.Sprintf("%s|%d|%s|%s", kind, stage, user, key)] = p
 		return p, nil
 	case "partial":
 		return nil, &ssh.PartialSuccessError{Next: next()}
@@ -812,7 +821,23 @@ func (r *run) judge() {
 	}
 	// the Permissions returned are those of the final successful callback
 	if q.Method != "none" || s.NoneCB != nil {
-		if r.perms != r.lastCB {
+		want, wantKind := r.lastCB, r.lastCBk
+		if r.lastCBk != "verified" || q.Method != "pk" {
+			// the callback that decided this request
+			st, key := stage, ""
+			if q.Method == "none" {
+				st = -1
+			}
+			if q.Method == "pk" {
+				key = q.Key
+			}
+			k := fmt.Sprintf("%s|%d|%s|%s", q.Method, st, userOf(q), key)
+			if p, ok := r.lastBy[k]; ok {
+				want, wantKind = p, k
+			}
+		}
+		if r.perms != want {
+			r.lastCB, r.lastCBk = want, wantKind
 			got := "<nil>"
 			if r.perms != nil {
 				got = r.perms.Extensions["verif-id"]
